@@ -38,6 +38,10 @@ def entries(rng, cls: str, m: int, n: int) -> np.ndarray:
         ax = rng.choice(4, size=2, replace=False)
         c[..., ax[0]] = rng.standard_normal((m, n))
         c[..., ax[1]] = rng.standard_normal((m, n))
+    elif cls.startswith("axes:"):    # "axes:03" = populated components w and k, every other plane exactly zero (all 15 non-empty subsets are used)
+        c = np.zeros((m, n, 4))
+        for ch in cls.split(":", 1)[1]:
+            c[..., int(ch)] = rng.standard_normal((m, n)) if rng.random() < 0.7 else rng.integers(-3, 4, size=(m, n)).astype(float)
     elif cls == "zeros":
         c = np.zeros((m, n, 4))
     elif cls == "sparse":
@@ -72,6 +76,7 @@ def entries(rng, cls: str, m: int, n: int) -> np.ndarray:
     return refq.qa(c)
 
 
+AXES_SUBSETS = ["".join(str(i) for i in range(4) if (b >> i) & 1) for b in range(1, 16)]      # the 15 non-empty subsets of the components
 LAYOUTS = ["C", "F", "strided", "transposed_view", "readonly", "negative_strides"]
 
 
